@@ -25,10 +25,7 @@ class C31(C30):
         'physical integer coordinates are recorded at _draw_line/_draw_box/_draw_box_filled (WINDOW float '
         'arithmetic is not modelled)',
     ]
-    PARTIAL = ('sprite array format proved for the packed-pixel builder (bpp 1, 2, 4, 8: SCREEN 1, 2, Tandy/PCjr 3-5, '
-               'Hercules, Olivetti); the planed (EGA SCREEN 7-10) and Tandy SCREEN 6 builders are covered by the '
-               'GET/PUT oracle on the implementation only (the matrix-level GET+PUT PSET and PUT XOR theorems do '
-               'not depend on the builder)')
+    PARTIAL = None
     RULE = ('real Session per video adapter in every graphics SCREEN, random screen contents in colours below the '
             'drawing attribute, optional VIEW [SCREEN]; PSET / solid LINE / LINE,B / LINE,BF with the defining '
             'points inside the viewport (any slope and length) compared with the model; GET of random rectangles '
@@ -232,6 +229,7 @@ class C31(C30):
         ox, oy = (0, 0) if view[0] else (view[1], view[2])
         region = [[before[ap][(y + oy) * pw + (x + ox)] for x in range(x0, x1 + 1)] for y in range(y0, y1 + 1)]
         info = {'builder': type(g._mode.sprite_builder).__name__, 'bpp': g._mode.bitsperpixel, 'arr': arr,
+                'planes': getattr(g._mode.sprite_builder, '_number_planes', 0),
                 'rows': rows, 'region': region, 'err_get': e1, 'wf': wf}
         # GET then PUT PSET at the same place
         ex('PUT (%d,%d),A%%,PSET' % (x0, y0))
@@ -260,15 +258,30 @@ class C31(C30):
         if k2 == 'point':
             return list(info['out'])
         # sprite: the bytes GET wrote (header + data) and the sprite PUT's unpack sees
-        if info['builder'] != 'PackedSpriteBuilder' or info['bpp'] not in PACKED_BPP:
+        fmt = self._sprite_format(case, info)
+        if fmt is None:
             return [9, len(info['rows']), len(info['rows'][0]) if info['rows'] else 0]
-        rb = (case['w'] * info['bpp'] + 7) // 8
-        n = 4 + rb * case['h']
+        n = fmt[2]
         out = [0, n] + list(info['arr'][:n])
         out += [len(info['rows']), len(info['rows'][0]) if info['rows'] else 0]
         for r in info['rows']:
             out += r
         return out
+
+    @staticmethod
+    def _sprite_format(case, info):
+        """(pack term, unpack term, number of array bytes) of the model for the sprite builder of the mode."""
+        b = info['builder']
+        h = case['h']
+        if b == 'PackedSpriteBuilder' and info['bpp'] in PACKED_BPP:
+            rb = (case['w'] * info['bpp'] + 7) // 8
+            return ('pack_sprite %d' % info['bpp'], 'unpack_sprite %d' % info['bpp'], 4 + rb * h)
+        if b == 'PlanedSpriteBuilder':
+            n = info['planes']
+            return ('pack_planed %d%%nat' % n, 'unpack_planed %d%%nat' % n, 4 + ((case['w'] + 7) // 8) * h * n)
+        if b == 'Tandy6SpriteBuilder':
+            return ('pack_tandy6', 'unpack_tandy6', 4 + ((2 * case['w'] + 7) // 8) * h * 2)
+        return None
 
     # ------------------------------------------------------------------ model
     def model_term(self, case):
@@ -284,15 +297,14 @@ class C31(C30):
             v = info['view']
             return ('(enc_resZ (point %s (blank %d %d %d) %d %d %s %s))' % (
                 G.coq_vp(v), info['h'], info['w'], case['bg'], info['w'], info['h'], G.z(case['x']), G.z(case['y'])))
-        if info['builder'] != 'PackedSpriteBuilder' or info['bpp'] not in PACKED_BPP:
+        fmt = self._sprite_format(case, info)
+        if fmt is None:
             return core.zl([9, len(info['rows']), len(info['rows'][0]) if info['rows'] else 0])
-        bpp = info['bpp']
         region = G.coq_matrix(info['region'])
-        rb = (case['w'] * bpp + 7) // 8
-        n = 4 + rb * case['h']
+        n = fmt[2]
         arr = G.zl_chunked(list(info['arr'][:n + 6]))
-        return ('(let p := pack_sprite %d %s in let u := unpack_sprite %d %s in '
-                '(0 :: zlen p :: p) ++ (zlen u :: sprite_w u :: List.concat u))' % (bpp, region, bpp, arr))
+        return ('(let p := %s %s in let u := %s %s in '
+                '(0 :: zlen p :: p) ++ (zlen u :: sprite_w u :: List.concat u))' % (fmt[0], region, fmt[1], arr))
 
     # ------------------------------------------------------------------ property oracle (implementation only)
     def oracle(self, case, out):
